@@ -1263,6 +1263,8 @@ class MindsDBParser(Parser):
         if hasattr(p, 'id'):
             query.alias = Identifier(parts=[p.id])
         if hasattr(p, 'column_list'):
+            if not isinstance(query, Select):
+                raise ParsingException('Column names after the alias are supported only for a SELECT sub-query')
             for i, col in enumerate(p.column_list):
                 if i >= len(query.targets):
                     break
